@@ -53,17 +53,17 @@ static void op_badcall(World &W, const Json &op) {
         }
     }
     int n = (int) t->orig.size(), k = t->cfg.k > 0 ? t->cfg.k : 1;
-    W.cur_api = api;
+    cur().api = api;
     W.fault(desc_bad ? (dm == "dead" ? "USE_DEAD" : "BAD_DESC") : "BADCALL");
     size_t live0 = own::live();
     long rc = 0; bool judged = desc_bad || mask != 0; bool noop_ok = false;
     std::vector<char *> fr;
-    for (int i = 0; i < n; i++) fr.push_back((char *) W.arena.place(t->orig[i].data(), t->orig[i].size(), Arena::RIGHT));
+    for (int i = 0; i < n; i++) fr.push_back((char *) thread_arena().place(t->orig[i].data(), t->orig[i].size(), Arena::RIGHT));
     static const int bad_nums[] = {INT_MIN, -1, 0, -7};
     static const u64 bad_lens[] = {0, 1, 79, 40};
     if (api == "encode") {
         char **ed = nullptr, **ep = nullptr; u64 fl = 0;
-        char *in = (char *) W.arena.place(t->data.data(), t->data.size(), Arena::RIGHT);
+        char *in = (char *) thread_arena().place(t->data.data(), t->data.size(), Arena::RIGHT);
         rc = liberasurecode_encode(desc, (mask & 1) ? nullptr : in, t->data.size(), (mask & 2) ? nullptr : &ed, (mask & 4) ? nullptr : &ep, (mask & 8) ? nullptr : &fl);
         if (rc == 0) { liberasurecode_encode_cleanup(desc, ed, ep); }
         else if ((ed && own::owns(ed)) || (ep && own::owns(ep))) W.viol("C13 C16", "encode/error-left-output-pointers", "encode failed but left allocated arrays in the output pointers");
@@ -82,7 +82,7 @@ static void op_badcall(World &W, const Json &op) {
         rc = liberasurecode_decode_cleanup(desc, nullptr);
         if (!desc_bad) noop_ok = true;
     } else if (api == "reconstruct") {
-        u8 *out = W.arena.place(nullptr, t->flen ? t->flen : 96, Arena::RIGHT, true);
+        u8 *out = thread_arena().place(nullptr, t->flen ? t->flen : 96, Arena::RIGHT, true);
         int num = (mask & 2) ? bad_nums[var & 3] : n - 1;
         u64 fl = (mask & 4) ? bad_lens[var & 3] : t->flen;
         static const int bad_dest[] = {-1, 0, 1, INT_MAX, INT_MIN, 64, 1000};
@@ -92,7 +92,7 @@ static void op_badcall(World &W, const Json &op) {
         rc = liberasurecode_reconstruct_fragment(desc, (mask & 1) ? nullptr : fr.data(), num, fl, dest, (mask & 16) ? nullptr : (char *) out);
     } else if (api == "fragments_needed") {
         std::vector<int> R = {0, -1}, X = {-1}, N((size_t) n + 2, 0);
-        int *Rp = (int *) W.arena.place((u8 *) R.data(), 8, Arena::RIGHT), *Xp = (int *) W.arena.place((u8 *) X.data(), 4, Arena::RIGHT);
+        int *Rp = (int *) thread_arena().place((u8 *) R.data(), 8, Arena::RIGHT), *Xp = (int *) thread_arena().place((u8 *) X.data(), 4, Arena::RIGHT);
         rc = liberasurecode_fragments_needed(desc, (mask & 1) ? nullptr : Rp, (mask & 2) ? nullptr : Xp, (mask & 4) ? nullptr : N.data());
     } else if (api == "get_fragment_metadata") {
         fragment_metadata_t md; memset(&md, 0, sizeof md);
@@ -112,7 +112,7 @@ static void op_badcall(World &W, const Json &op) {
         rc = liberasurecode_get_fragment_size(desc, var * 37 + 1); judged = desc_bad;
     } else if (api == "instance_destroy") {
         judged = desc_bad;
-        if (!desc_bad) { W.arena.release_all(); return; }   // destroying a live slot is DESTROY's job
+        if (!desc_bad) { thread_arena().release_all(); return; }   // destroying a live slot is DESTROY's job
         rc = liberasurecode_instance_destroy(desc);
     } else if (api == "backend_available") {
         static const int ids[] = {EC_BACKENDS_MAX, EC_BACKENDS_MAX + 1, 255, -1, INT_MAX, 1000};
@@ -123,16 +123,16 @@ static void op_badcall(World &W, const Json &op) {
         int id = (mask & 1) ? ids[var % 6] : EC_BACKEND_LIBERASURECODE_RS_VAND;
         rc = liberasurecode_instance_create((ec_backend_id_t) id, (mask & 2) ? nullptr : &a); judged = mask != 0;
         if (rc > 0) { liberasurecode_instance_destroy((int) rc); }
-    } else { W.probe("badcall.unknown-api"); W.arena.release_all(); return; }
+    } else { W.probe("badcall.unknown-api"); thread_arena().release_all(); return; }
     W.trace.add("badcall.rc", rc);
     if (judged) {
         const char *what = desc_bad ? (dm == "dead" ? "dead-descriptor" : "unknown-descriptor") : "invalid-argument";
         if (noop_ok) W.probe("badcall.cleanup-noop");
         else if (!refused(api, rc)) W.viol(desc_bad ? "C13 C14" : "C13", api + "/" + what + "-accepted", api + " with " + what + " (mask " + std::to_string(mask) + ", variant " + std::to_string(var) + ") returned " + std::to_string(rc));
         else W.probe(std::string("badcall.refused.") + what);
-        if (own::live() != live0) W.viol("C13 C16", api + "/refused-call-retained-memory", api + " refused the call but kept " + std::to_string((long) own::live() - (long) live0) + " block(s)");
+        if (leaked(W, live0)) W.viol("C13 C16", api + "/refused-call-retained-memory", api + " refused the call but kept " + std::to_string((long) own::live() - (long) live0) + " block(s)");
     }
-    W.arena.release_all();
+    thread_arena().release_all();
 }
 
 // full use cycle of an instance that creation accepted: must run without arithmetic or memory faults (C13),
@@ -143,17 +143,17 @@ static void op_cycle(World &W, const Json &op) {
     u64 len = (u64) op["len"].num(100);
     int k = s.cfg.k, m = s.cfg.m, n = k + m;
     std::vector<u8> data(len); Rng r((u64) op["dseed"].num(1)); for (auto &b : data) b = (u8) r.next();
-    W.cur_api = "size-queries";
+    cur().api = "size-queries";
     long a = liberasurecode_get_aligned_data_size(s.desc, len), mn = liberasurecode_get_minimum_encode_size(s.desc), fs = liberasurecode_get_fragment_size(s.desc, (int) len);
     W.trace.add("cycle.aligned", a); W.trace.add("cycle.min", mn); W.trace.add("cycle.fs", fs);
     if (a < 0 || mn < 0 || fs < 0) W.viol("C13", "cycle/size-query-failed-on-live-instance", "aligned=" + std::to_string(a) + " min=" + std::to_string(mn) + " fragsize=" + std::to_string(fs));
-    char *in = (char *) W.arena.place(data.data(), data.size(), Arena::RIGHT);
+    char *in = (char *) thread_arena().place(data.data(), data.size(), Arena::RIGHT);
     char **ed = nullptr, **ep = nullptr; u64 fl = 0;
     size_t live0 = own::live();
-    W.cur_api = "encode";
+    cur().api = "encode";
     int rc = liberasurecode_encode(s.desc, in, len, &ed, &ep, &fl);
     W.trace.add("cycle.enc", rc);
-    if (rc != 0) { W.viol("C13", std::string("cycle/encode-failed/") + be_name(s.cfg.be), "accepted instance cannot encode: rc=" + std::to_string(rc)); W.arena.release_all(); return; }
+    if (rc != 0) { W.viol("C13", std::string("cycle/encode-failed/") + be_name(s.cfg.be), "accepted instance cannot encode: rc=" + std::to_string(rc)); thread_arena().release_all(); return; }
     std::vector<std::vector<u8>> frs;
     for (int i = 0; i < n; i++) { char *f = i < k ? ed[i] : ep[i - k]; frs.emplace_back((u8 *) f, (u8 *) f + fl); }
     liberasurecode_encode_cleanup(s.desc, ed, ep);
@@ -165,9 +165,9 @@ static void op_cycle(World &W, const Json &op) {
         int lose = round == 0 ? 0 : std::min(tol, n - 1);
         if (round == 1 && lose == 0) break;
         std::vector<char *> fr;
-        for (int i = lose; i < n; i++) fr.push_back((char *) W.arena.place(frs[i].data(), fl, (i & 1) ? Arena::RIGHT : 0));
+        for (int i = lose; i < n; i++) fr.push_back((char *) thread_arena().place(frs[i].data(), fl, (i & 1) ? Arena::RIGHT : 0));
         char *out = nullptr; u64 ol = 0;
-        W.cur_api = "decode";
+        cur().api = "decode";
         int d = liberasurecode_decode(s.desc, fr.data(), (int) fr.size(), fl, 0, &out, &ol);
         W.trace.add("cycle.dec", d);
         bool same = d == 0 && ol == len && (len == 0 || (out && memcmp(out, data.data(), len) == 0));
@@ -181,17 +181,17 @@ static void op_cycle(World &W, const Json &op) {
         }
         if (d == 0) liberasurecode_decode_cleanup(s.desc, out);
         if (coded && lose) {
-            u8 *ob = W.arena.place(nullptr, fl, 0, true);
-            W.cur_api = "reconstruct_fragment";
+            u8 *ob = thread_arena().place(nullptr, fl, 0, true);
+            cur().api = "reconstruct_fragment";
             int rr = liberasurecode_reconstruct_fragment(s.desc, fr.data(), (int) fr.size(), fl, 0, (char *) ob);
             W.trace.add("cycle.rec", rr);
             if (rr != 0) W.viol("C13", std::string("cycle/reconstruct-failed/") + be_name(s.cfg.be), "rc=" + std::to_string(rr));
             else if (memcmp(ob, frs[0].data(), fl) != 0) W.viol("C13", std::string("cycle/reconstruct-wrong/") + be_name(s.cfg.be), "fragment 0 rebuilt differently");
         }
     }
-    if (own::live() != live0) W.viol("C13 C16", "cycle/leak", "use cycle left " + std::to_string((long) own::live() - (long) live0) + " block(s)");
+    if (leaked(W, live0)) W.viol("C13 C16", "cycle/leak", "use cycle left " + std::to_string((long) own::live() - (long) live0) + " block(s)");
     W.probe(std::string("cycle.done.") + be_name(s.cfg.be));
-    W.arena.release_all();
+    thread_arena().release_all();
 }
 
 // ---------------------------------------------------------------- canaries: history independence (C15, C14, C18)
@@ -249,28 +249,31 @@ void canary_init() {
 static void op_canary(World &W, const Json &op) {
     auto &defs = canary_defs();
     size_t ci = (size_t) op["c"].num() % defs.size();
+    // the legacy-CRC switch is process-wide: threaded runs only use canaries written with the switch off and never
+    // touch the environment (otherwise two canaries of different profile would disturb each other - a harness artefact)
+    if (W.threaded) while (defs[ci].legacy) ci = (ci + 1) % defs.size();
     const CanaryDef &c = defs[ci];
     if (g_canary_ref.size() <= ci || g_canary_ref[ci] == 0) { W.probe("canary.no-reference"); return; }
     bool env_was_set = W.env_set; std::string env_was = W.env_val;
-    set_env(W, c.legacy, "1");
+    if (!W.threaded) set_env(W, c.legacy, "1");
     // prefer a live instance of the same configuration (shared-instance history), else a temporary one
     int desc = -1; bool temp = false;
-    for (auto &s : W.slots) if (s.live && s.cfg.same(c.cfg)) { desc = s.desc; break; }
-    W.cur_api = "canary";
+    if (!W.threaded) for (auto &s : W.slots) if (s.live && s.cfg.same(c.cfg)) { desc = s.desc; break; }   // never borrow another thread's instance
+    cur().api = "canary";
     if (desc < 0) {
         desc = canary_create(c); temp = true;
-        if (desc <= 0) { W.viol("C14 C15 C18", "canary/create-failed", "canary configuration " + std::to_string(ci) + " could not be created: " + std::to_string(desc)); set_env(W, env_was_set, env_was); return; }
+        if (desc <= 0) { W.viol("C14 C15 C18", "canary/create-failed", "canary configuration " + std::to_string(ci) + " could not be created: " + std::to_string(desc)); if (!W.threaded) set_env(W, env_was_set, env_was); return; }
         if (W.live_descs.count(desc)) W.viol("C14 C18", "descriptor-not-unique", "canary create returned live descriptor " + std::to_string(desc));
     }
     bool ok = false;
-    u64 h = canary_digest(desc, c, W.arena, &ok);
+    u64 h = canary_digest(desc, c, thread_arena(), &ok);
     W.trace.add("canary", (i64) h);
     if (!ok) W.viol("C14 C15 C18", "canary/encode-failed", "canary " + std::to_string(ci));
     else if (h != g_canary_ref[ci]) W.viol("C14 C15 C18", std::string("canary/output-depends-on-history/") + be_name(c.cfg.be), "encode of a fixed (configuration, data) pair differs from the fresh-process result");
     else W.probe("canary.match");
     if (temp) { int rc = liberasurecode_instance_destroy(desc); if (rc != 0) W.viol("C14", "destroy-live-failed", "canary destroy rc=" + std::to_string(rc)); else W.dead_descs.insert(desc); }
-    set_env(W, env_was_set, env_was);
-    W.arena.release_all();
+    if (!W.threaded) set_env(W, env_was_set, env_was);
+    thread_arena().release_all();
 }
 
 static void op_setctr(World &W, const Json &op) {
@@ -299,7 +302,7 @@ long isal_injected_failures() { isal_stub_ctl_t *c = isal_ctl(); return c ? c->n
 static void op_destroy_dead(World &W, const Json &op) {
     bool ok; int d = pick_desc(W, W.slots[0], op["dm"].str().empty() ? "dead" : op["dm"].str(), op["var"].in(0), &ok);
     if (!ok) return;
-    W.cur_api = "instance_destroy";
+    cur().api = "instance_destroy";
     W.fault("DESTROY_DEAD");
     int rc = liberasurecode_instance_destroy(d);
     W.trace.add("destroy_dead.rc", rc);
